@@ -205,7 +205,9 @@ func checkPasswordDispatch(c *km.Ctx, s *km.Sem) {
 				return false
 			}
 			return st.All(func(k km.Conj) bool {
-				stopAt := func(cl *ssa.Call) bool { return ssa.Value(cl) == u || km.CalleeFull(cl.Common()) == RS+"reprocessUsername" }
+				stopAt := func(cl *ssa.Call) bool {
+					return ssa.Value(cl) == u || km.CalleeFull(cl.Common()) == RS+"reprocessUsername"
+				}
 				for _, lf := range s.Leaves(k, at.Parent(), nil, v, stopAt, 2) {
 					if lf.Val != u {
 						return false
